@@ -112,7 +112,11 @@ def extract_specs(name, ctx):
     if name == "bodies":
         specs = []; C = {}
         n = 0
-        for x in ops:
+        GROUP = 6          # operations per module: Verus verifies modules in parallel
+        for k, x in enumerate(ops):
+            if k % GROUP == 0:
+                if k: specs.append({"id": f"modclose_{k}", "text": "    }"})
+                specs.append({"id": f"modopen_{k}", "text": f"    pub mod g{k // GROUP} {{\n    use vstd::prelude::*;\n    use super::super::*;\n    use crate::error::*;\n    use crate::http;\n    use crate::dto::*;\n    use std::mem;"})
             pre = (f"    pub struct {x};\n    impl {x} {{\n"
                    f"        pub uninterp spec fn spec_ser(output: {x}Output) -> S3Result<http::Response>;\n"
                    f"        #[verifier::external_body]\n        pub fn deserialize_http(req: &mut http::Request) -> (r: S3Result<{x}Input>)\n"
@@ -129,6 +133,7 @@ def extract_specs(name, ctx):
                 C[f"call_{x}"].append({"kind": "after", "n": 1, "anchor": "resp.extensions.extend(s3_resp.extensions);",
                                        "text": "    proof { assert(hm_is(overridden_headers)); }"})
             n += 1
+        if ops: specs.append({"id": "modclose_end", "text": "    }"})
         ctx["info"]["bodies_under_contract"] = n
         return specs, C
     raise KeyError(name)
